@@ -3,6 +3,7 @@
 package mut
 
 import (
+	"bytes"
 	"fmt"
 	"sort"
 
@@ -130,6 +131,12 @@ func Apply(data []byte, m *build.Map, ops []Op, other []byte) []byte {
 			if o.A >= 0 && o.A <= len(d) && o.B >= 0 && o.B <= len(other) {
 				d = append(append([]byte(nil), d[:o.A]...), other[o.B:]...)
 			}
+		case "run": // insert B copies of byte Value at position A
+			if o.A >= 0 && o.A <= len(d) && o.B > 0 && o.B <= 1<<20 {
+				nd := append([]byte(nil), d[:o.A]...)
+				nd = append(nd, bytes.Repeat([]byte{byte(o.Value)}, o.B)...)
+				d = append(nd, d[o.A:]...)
+			}
 		case "type":
 			if m != nil && o.Field >= 0 && o.Field < len(m.Fields) {
 				f := m.Fields[o.Field]
@@ -153,9 +160,9 @@ func Gen(t *rapid.T, data []byte, m *build.Map, otherLen int, otherEnds []int, m
 	es := ends(m, len(data))
 	var ops []Op
 	for i := 0; i < n; i++ {
-		kinds := []string{"set", "set", "set", "trunc", "flip", "dup", "drop", "swap", "splice", "type"}
+		kinds := []string{"set", "set", "set", "trunc", "flip", "dup", "drop", "swap", "splice", "type", "run"}
 		if m == nil || len(m.Fields) == 0 {
-			kinds = []string{"trunc", "flip", "dup", "drop", "swap", "splice"}
+			kinds = []string{"trunc", "flip", "dup", "drop", "swap", "splice", "run"}
 		}
 		k := rapid.SampledFrom(kinds).Draw(t, "opkind")
 		o := Op{Kind: k}
@@ -175,6 +182,22 @@ func Gen(t *rapid.T, data []byte, m *build.Map, otherLen int, otherEnds []int, m
 			} else {
 				o.A = rapid.IntRange(0, len(data)).Draw(t, "cut")
 			}
+		case "run":
+			// a run of one byte value (padding, fill bytes, zeros) at the start, after the signature or at a
+			// structure boundary; lengths around the sizes of look-ahead windows and buffers
+			switch rapid.IntRange(0, 3).Draw(t, "runat") {
+			case 0:
+				o.A = 0
+			case 1:
+				o.A = rapid.SampledFrom([]int{2, 4, 8, 12}).Draw(t, "runsig")
+				if o.A > len(data) {
+					o.A = len(data)
+				}
+			default:
+				o.A = rapid.SampledFrom(es).Draw(t, "runb")
+			}
+			o.B = rapid.SampledFrom([]int{1, 2, 3, 7, 8, 15, 16, 31, 32, 62, 63, 64, 65, 127, 128, 255, 256, 511, 512, 4094, 4095, 4096, 4097, 8192, 70000}).Draw(t, "runlen")
+			o.Value = uint64(rapid.SampledFrom([]int{0xFF, 0xFF, 0x00, 0x20, 0xD8, 0x89}).Draw(t, "runbyte"))
 		case "flip":
 			o.A = rapid.IntRange(0, maxi(0, len(data)-1)).Draw(t, "pos")
 			if rapid.Bool().Draw(t, "early") && len(data) > 64 {
